@@ -133,7 +133,7 @@ fn garbage_bodies() -> Vec<(&'static str, Vec<u8>)> {
     ]
 }
 
-pub fn generate(seed: u64, w: &World, with_big: bool) -> Value {
+pub fn generate(seed: u64, w: &World, with_big: bool, with_stalls: bool) -> Value {
     let mut rng = Rng::new(seed);
     // swarm: which fault families are enabled in this run
     let fault_free = rng.chance(2, 5);
@@ -162,7 +162,18 @@ pub fn generate(seed: u64, w: &World, with_big: bool) -> Value {
     } else {
         json!({"kind": "json", "text": *rng.pick(&JSON_BODIES)})
     };
-    let script = if fault_free {
+    let script = if with_stalls && seed % (simcore::env_usize("VERIF_C20_STALL_MOD", 997) as u64) == 0 {
+        // the endpoint goes silent: nothing, a partial head, or a partial body, then no more bytes.
+        // Real time: the client's own 30 s timeout has to end the run.
+        let mut r = reply(&mut rng, 200, served.clone(), false);
+        r["kind"] = json!("stall");
+        r["cut"] = match rng.below(3) {
+            0 => json!({"at": "abs", "n": 0}),
+            1 => json!({"at": "head-end", "delta": -5}),
+            _ => json!({"at": "permille", "n": rng.range(300, 900)}),
+        };
+        r
+    } else if fault_free {
         reply(&mut rng, 200, served.clone(), true)
     } else {
         match rng.below(12) {
@@ -311,6 +322,15 @@ pub fn build(script: &Value, served_json: &dyn Fn(&Value) -> Vec<u8>) -> Built {
         "no-reply" => {
             let rst = script["rst"].as_bool().unwrap_or(false);
             Built { behaviour: Behaviour::NoReply { rst }, meaning: Meaning::Broken("request read, no reply".into()), class: format!("no-reply-{}", if rst { "rst" } else { "fin" }), cut_bucket: "-".into() }
+        }
+        "stall" => {
+            // same bytes as the reply cut at that point, but the connection stays open
+            let b = build_reply(script, served_json);
+            let segments = match b.behaviour {
+                Behaviour::Reply { segments, .. } => segments,
+                _ => vec![],
+            };
+            Built { behaviour: Behaviour::Stall { segments }, meaning: Meaning::Broken("endpoint went silent; the client's timeout ends the exchange".into()), class: format!("stall-after-{}", b.cut_bucket), cut_bucket: b.cut_bucket }
         }
         _ => build_reply(script, served_json),
     }
